@@ -529,7 +529,7 @@ pub fn exec(case: &Value, out: &mut Out) {
 
 // ================================================================== by-reference vs consuming forms on INEXACT data
 /// element types of the inexact family: f64 and Complex<f64>
-trait Gx: Copy + ohsl::Number + ohsl::Signed + PartialOrd + std::fmt::Debug + 'static { fn mk(a: f64, b: f64) -> Self; }
+trait Gx: Copy + ohsl::Number + ohsl::Signed + PartialOrd + std::fmt::Debug + Send + Sync + 'static { fn mk(a: f64, b: f64) -> Self; }
 impl Gx for f64 { fn mk(a: f64, _b: f64) -> f64 { a } }
 impl Gx for Cmplx { fn mk(a: f64, b: f64) -> Cmplx { Cmplx::new(a, b) } }
 fn mix64(mut z: u64) -> u64 { z = z.wrapping_add(0x9E3779B97F4A7C15); z = (z ^ (z >> 30)).wrapping_mul(0xBF58476D1CE4E5B9); z = (z ^ (z >> 27)).wrapping_mul(0x94D049BB133111EB); z ^ (z >> 31) }
